@@ -89,6 +89,15 @@ func c13Run(u *vfUnit) {
 		}
 		return 0, nil
 	}
+	shorting := map[int64]int{} // offset -> bytes delivered by a short (non-EOF) DATA reply
+	store.ShortAt = func(path string, off int64, n int) int {
+		fmu.Lock()
+		defer fmu.Unlock()
+		if path == failPath {
+			return shorting[off]
+		}
+		return 0
+	}
 	sc := vfSrvCfg{Kind: vfRS, Alloc: i%3 == 0, H: store.Handlers(vfHandlerOpt{OpenFile: i%2 == 0})}
 	sess, px, err := vfConnectProxied(sc, 2+r.Intn(10), r.Fork(), MaxPacketUnchecked(P), MaxConcurrentRequestsPerFile(C), UseConcurrentReads(conc), UseConcurrentWrites(conc))
 	if err != nil {
@@ -103,6 +112,10 @@ func c13Run(u *vfUnit) {
 		short bool // the last chunk is short
 		eofAt int  // reads: file ends at this byte offset relative to O (-1 = file longer than the transfer)
 		shape string
+		// shortFail (reads through the sequential paths): the failing chunk is first answered with a short
+		// DATA reply (half of it, not the end of the file); the follow-up request for the rest fails.
+		shortFail bool
+		single    bool // the transfer is a single chunk
 	}
 	var cases []fcase
 	for k := 0; k < 12; k++ {
@@ -122,12 +135,25 @@ func c13Run(u *vfUnit) {
 		cases = append(cases, fcase{idx: []int{3}, eofAt: 7*P + P/2, shape: "failure-before-eof"})
 		cases = append(cases, fcase{idx: nil, eofAt: 7*P + P/2, shape: "eof-inside-no-failure"})
 		cases = append(cases, fcase{idx: nil, eofAt: 7 * P, shape: "eof-at-boundary-no-failure"})
+		if P > 1 && api != "WriteTo" {
+			// a one-chunk read whose reply is short and whose follow-up fails
+			cases = append(cases, fcase{idx: []int{0}, eofAt: -1, shape: "single-chunk-short-then-failure", shortFail: true, single: true})
+			cases = append(cases, fcase{idx: []int{0}, eofAt: -1, shape: "single-chunk-short-then-failure", shortFail: true, single: true})
+		}
+		if P > 1 && !conc {
+			for k := 0; k < 4; k++ {
+				cases = append(cases, fcase{idx: []int{r.Intn(12)}, eofAt: -1, shape: "short-then-failure", shortFail: true})
+			}
+		}
 	}
 	for ci, fc := range cases {
 		O := []int{0, P, 5, 2*P*C + 1}[ci%4]
 		L := 12 * P
 		if fc.short && P > 1 {
 			L = 11*P + 1 + r.Intn(P-1)
+		}
+		if fc.single {
+			L = P
 		}
 		path := fmt.Sprintf("/p%d", ci)
 		F := O + L + 2*P + 3
@@ -143,14 +169,22 @@ func c13Run(u *vfUnit) {
 		for k := range failing {
 			delete(failing, k)
 		}
+		for k := range shorting {
+			delete(shorting, k)
+		}
 		failPath = path
-		partial = !isWrite && ci%3 == 1 && P > 1
+		partial = !isWrite && ci%3 == 1 && P > 1 && !fc.shortFail
 		if partial {
 			u.Count("partial_read_failures", 1)
 		}
 		minFail := int64(-1)
 		for _, k := range fc.idx {
 			off := int64(O + k*P)
+			if fc.shortFail {
+				shorting[off] = P / 2
+				off += int64(P / 2)
+				u.Count("short_reply_then_failure", 1)
+			}
 			failing[off] = true
 			if minFail < 0 || off < minFail {
 				minFail = off
@@ -232,6 +266,9 @@ func c13Run(u *vfUnit) {
 		fmu.Lock()
 		for k := range failing {
 			delete(failing, k)
+		}
+		for k := range shorting {
+			delete(shorting, k)
 		}
 		fmu.Unlock()
 		f.Close()
